@@ -46,7 +46,8 @@ def _table(n, cols, frame=False, pp0_zero=False):
             vals = [fresh(f"{c.replace('-', '_')}{k}", pos=True) for k in range(n)]
         tab[c] = SymArray(vals, "f8")
     if frame:
-        f = pd_shim.SymFrame()
+        # frame == "labelled": a DataFrame whose index labels are n-1..0 in row order (a table put in order with sort_values)
+        f = pd_shim.SymFrame(index=list(range(n - 1, -1, -1)) if frame == "labelled" else None)
         for k, v in tab.items():
             f.cols[k] = v
         return f, ps, dom
@@ -107,7 +108,7 @@ def replay_wrapper(model, n=3, cols=LONG, cls="FlowProperties", frame=False):
     m = model_floats(model, names, default={k: 1.0 for k in names})
     t = _real_table(m, n, cols)
     before = {k: v.copy() for k, v in t.items()}
-    arg = pd.DataFrame(t) if frame else t
+    arg = (pd.DataFrame(t, index=list(range(n - 1, -1, -1))) if frame == "labelled" else pd.DataFrame(t)) if frame else t
     problems = []
     with warnings.catch_warnings():
         warnings.simplefilter("ignore")
@@ -161,7 +162,7 @@ def replay_rescale(model, n=3, frame=True):
     names = _names(n, ("pressure", "pseudopressure"))
     m = model_floats(model, names, default={k: 1.0 for k in names})
     t = _real_table(m, n, ("pressure", "pseudopressure"))
-    arg = pd.DataFrame(t) if frame else t
+    arg = (pd.DataFrame(t, index=list(range(n - 1, -1, -1))) if frame == "labelled" else pd.DataFrame(t)) if frame else t
     before = {k: v.copy() for k, v in t.items()}
     try:
         out = fp.rescale_pseudopressure(arg, m["pf"], m["pi"])
@@ -192,7 +193,7 @@ def job_wrapper(job, n, cols, cls, frame):
     q, q1, q2 = fresh("q"), fresh("q1"), fresh("q2")
     dom = dom + [T.b_le(P(ps[0]), P(q1)), T.b_lt(P(q1), P(q2)), T.b_le(P(q2), P(ps[-1])), T.b_le(P(pi), T.Poly.const(40000))]
     snap = _snapshot(tab)
-    tag = f"{cls}[{'frame' if frame else 'dict'},{'alpha' if 'alpha' in cols else 'c-mu-z'},N={n}]"
+    tag = f"{cls}[{('labelled frame' if frame == 'labelled' else 'frame') if frame else 'dict'},{'alpha' if 'alpha' in cols else 'c-mu-z'},N={n}]"
     rp = (replay_wrapper, {"n": n, "cols": list(cols), "cls": cls, "frame": frame})
     C = getattr(mod, cls)
     import warnings
@@ -384,7 +385,7 @@ def job_rescale(job, n, frame):
     pf, pi = fresh("pf", pos=True), fresh("pi", pos=True)
     dom = dom + [T.b_le(P(ps[0]), P(pf)), T.b_lt(P(pf), P(pi)), T.b_le(P(pi), P(ps[-1]))]
     snap = _snapshot(tab)
-    tag = f"rescale[{'frame' if frame else 'dict'},N={n}]"
+    tag = f"rescale[{('labelled frame' if frame == 'labelled' else 'frame') if frame else 'dict'},N={n}]"
     rp = (replay_rescale, {"n": n, "frame": frame})
 
     def run():
@@ -416,5 +417,8 @@ def jobs(tier):
     out.append(("long-frame-3", lambda j: job_wrapper(j, 3, LONG, "FlowProperties", True)))
     out.append(("columns", job_columns))
     out.append(("rescale-frame", lambda j: job_rescale(j, 3, True)))
+    out.append(("long-labelled-frame-3", lambda j: job_wrapper(j, 3, LONG, "FlowProperties", "labelled")))
+    out.append(("alpha-labelled-frame-3", lambda j: job_wrapper(j, 3, SHORT, "FlowProperties", "labelled")))
+    out.append(("rescale-labelled-frame", lambda j: job_rescale(j, 3, "labelled")))
     out.append(("rescale-dict", lambda j: job_rescale(j, 3, False)))
     return out
